@@ -2,9 +2,9 @@ import SeqIoModel.Proofs.FastqHistorySeek
 /-!
 # FASTQ histories, part 5: every record shown is a record of the input
 
-For read scripts without failing events and policies that may refuse: whatever the history
-(seeks included), every record shown by a single-record read, an owned read or the dump of a
-record set is a record of `Spec.fastq inp`.
+For every read script (failing reads included), scripted seek failures and policies that may
+refuse: whatever the history (seeks included), every record shown by a single-record read, an
+owned read or the dump of a record set is a record of `Spec.fastq inp`.
 
 (Failing read scripts: see the end of this file for the two histories that returned a
 fabricated record before `seek` was repaired.)
@@ -42,6 +42,28 @@ def GenM (inp : List UInt8) (m : MSt) : Prop :=
   ∀ j, ∃ recs, viewAll (m.getSet j).buffer (m.getSet j).positions = some recs ∧
     ∀ x ∈ recs, x ∈ allRecs inp
 
+theorem recsOf_obsSeek (res : Res Unit) : recsOf (obsSeek res) = [] := by
+  rcases res with (b | _ | _ | _) <;> rfl
+
+/-- a reader that stopped is good for a suffix of S's items -/
+theorem good_suffix {inp : List UInt8} {G : Prop} {r : Reader} {its' : List FqItem}
+    (h : Good inp G r its') (hst : r.state = .finished ∨ r.state = .new) :
+    ∃ k, Good inp G r ((Spec.fastq inp).drop k) := by
+  rcases hst with hst | hst
+  · refine ⟨(Spec.fastq inp).length, ?_⟩
+    have h' := h
+    simp only [Good, hst] at h'
+    rw [List.drop_length, ← h'.2]
+    exact h
+  · refine ⟨0, ?_⟩
+    have h' := h
+    simp only [Good, hst] at h'
+    have : its' = Spec.fastq inp := by
+      rw [h'.2.2.2.2.2.2]
+      simp only [itemsAt, List.drop_zero, Spec.fastq]
+    rw [List.drop_zero, ← this]
+    exact h
+
 theorem step_genuine (inp : List UInt8) (m : MSt) (hm : GenM inp m) (op : Op) (hwf : op.wf = true) :
     GenM inp (stepM m op).1 ∧ ∀ x ∈ recsOf (stepM m op).2, x ∈ allRecs inp := by
   obtain ⟨⟨k, hg⟩, hsets⟩ := hm
@@ -52,12 +74,16 @@ theorem step_genuine (inp : List UInt8) (m : MSt) (hm : GenM inp m) (op : Op) (h
     | 0 => rfl
     | 1 => rfl
     | _ + 2 => rfl
+  have atEnd : ∀ {r' : Reader}, Fin inp False r' →
+      ∃ k, Good inp False r' ((Spec.fastq inp).drop k) :=
+    fun hfin => ⟨(Spec.fastq inp).length, by rw [List.drop_length]; exact hfin.good⟩
   have nextCase : GenM inp (stepNext m).1 ∧ ∀ x ∈ recsOf (stepNext m).2, x ∈ allRecs inp := by
     have hF := next_found inp False (fuelOf m.r) m.r _ hg (by omega)
     simp only [stepNext]
     rcases hx : next (fuelOf m.r) m.r with ⟨r', res⟩
     rw [hx] at hF
-    rcases hF with ⟨hr, x, its', hi, hsh⟩ | ⟨hr, hi, hfin⟩ | ⟨e, b, l, hr, hi, hfin⟩ | ⟨hr, -, hfin⟩
+    rcases hF with (⟨hr, x, its', hi, hsh⟩ | ⟨hr, hi, hfin⟩ | ⟨e, b, l, hr, hi, hfin⟩ |
+      ⟨e, hr, henv, -, hfin⟩) | ⟨-, hres, its', hg', hst'⟩
     · simp only at hr hi hsh
       subst hr
       obtain ⟨hk, hd⟩ := drop_eq_cons hi
@@ -68,19 +94,19 @@ theorem step_genuine (inp : List UInt8) (m : MSt) (hm : GenM inp m) (op : Op) (h
       exact List.mem_filterMap.mpr ⟨_, List.mem_of_getElem? hk, rfl⟩
     · simp only at hr hfin
       subst hr
-      refine ⟨⟨⟨(Spec.fastq inp).length, by rw [List.drop_length]; exact hfin.good⟩,
-        fun j => by rw [keepSets]; exact hsets j⟩, ?_⟩
+      refine ⟨⟨atEnd hfin, fun j => by rw [keepSets]; exact hsets j⟩, ?_⟩
       simp [obsNext, recsOf]
     · simp only at hr hfin
       subst hr
-      refine ⟨⟨⟨(Spec.fastq inp).length, by rw [List.drop_length]; exact hfin.good⟩,
-        fun j => by rw [keepSets]; exact hsets j⟩, ?_⟩
+      refine ⟨⟨atEnd hfin, fun j => by rw [keepSets]; exact hsets j⟩, ?_⟩
       simp [obsNext, recsOf]
     · simp only at hr hfin
       subst hr
-      refine ⟨⟨⟨(Spec.fastq inp).length, by rw [List.drop_length]; exact hfin.good⟩,
-        fun j => by rw [keepSets]; exact hsets j⟩, ?_⟩
+      refine ⟨⟨atEnd hfin, fun j => by rw [keepSets]; exact hsets j⟩, ?_⟩
       simp [obsNext, recsOf]
+    · simp only at hres hg' hst'
+      refine ⟨⟨good_suffix hg' hst', fun j => by rw [keepSets]; exact hsets j⟩, ?_⟩
+      rcases hres with h | ⟨k', h⟩ <;> subst h <;> simp [obsNext, recsOf]
   cases op with
   | next => exact nextCase
   | owned => exact nextCase
@@ -107,23 +133,25 @@ theorem step_genuine (inp : List UInt8) (m : MSt) (hm : GenM inp m) (op : Op) (h
     refine ⟨⟨?_, ?_⟩, norec⟩
     · rw [MSt.putSet_r]
       rcases hR with ⟨-, ys, its', hi, -, -, hl, -⟩ | ⟨-, -, hfin, -⟩ | ⟨ys, e, b, l, -, -, -, hfin, -⟩ |
-        ⟨-, -, -, hfin⟩
+        ⟨e, -, -, -, -, hfin⟩ | ⟨-, -, -, its', hg', hst'⟩
       · exact ⟨k + ys.length, by
           have := drop_eq_append hi
           simp only [List.length_map] at this
           rw [this]; exact hl.1⟩
-      · exact ⟨(Spec.fastq inp).length, by rw [List.drop_length]; exact hfin.good⟩
-      · exact ⟨(Spec.fastq inp).length, by rw [List.drop_length]; exact hfin.good⟩
-      · exact ⟨(Spec.fastq inp).length, by rw [List.drop_length]; exact hfin.good⟩
+      · exact atEnd hfin
+      · exact atEnd hfin
+      · exact atEnd hfin
+      · exact good_suffix hg' hst'
     · apply setsAfter
       rcases hR with ⟨-, ys, its', hi, hv, -, -, -⟩ | ⟨-, -, -, hrs⟩ | ⟨ys, e, b, l, -, -, hp, -, -⟩ |
-        ⟨-, -, hp, -⟩
+        ⟨e, -, -, -, hp, -⟩ | ⟨-, -, hrs, -⟩
       · exact ⟨_, hv, mem_allRecs_of_drop hi⟩
       · rcases hrs with h | h
         · simp only at h; rw [h]; exact hsets j
         · simp only at h; exact ⟨[], by rw [h]; rfl, fun x hx' => by cases hx'⟩
       · simp only at hp; exact ⟨[], by rw [hp]; rfl, fun x hx' => by cases hx'⟩
       · simp only at hp; exact ⟨[], by rw [hp]; rfl, fun x hx' => by cases hx'⟩
+      · simp only at hrs; rw [hrs]; exact hsets j
   | dump j =>
     refine ⟨⟨⟨k, hg⟩, hsets⟩, ?_⟩
     obtain ⟨recs, hv, hall⟩ := hsets j
@@ -137,16 +165,23 @@ theorem step_genuine (inp : List UInt8) (m : MSt) (hm : GenM inp m) (op : Op) (h
     | none => exact ⟨⟨⟨k, hg⟩, hsets⟩, by simp [recsOf]⟩
     | some it =>
       obtain ⟨hb, hdrop⟩ := fastq_drop inp i it hi
-      obtain ⟨h1, h2, -, -⟩ := seek_good inp False m.r _ hg (itemPos it).1 (itemPos it).2 hb
-      refine ⟨⟨⟨i, by rw [hdrop]; exact h2⟩, fun j => by rw [keepSets]; exact hsets j⟩, ?_⟩
-      simp only [h1, obsSeek, recsOf]
-      intro x hx'
-      cases hx'
+      have norec : ∀ x ∈ recsOf (obsSeek (seek m.r (itemPos it).1 (itemPos it).2).2),
+          x ∈ allRecs inp := by
+        intro x hx'
+        rw [recsOf_obsSeek] at hx'
+        cases hx'
+      refine ⟨⟨?_, fun j => by rw [keepSets]; exact hsets j⟩, norec⟩
+      rcases seek_cases inp False m.r _ hg (itemPos it).1 (itemPos it).2 hb with
+        ⟨-, h2, -, -⟩ | ⟨-, -, h2 | h2⟩
+      · exact ⟨i, by rw [hdrop]; exact h2⟩
+      · exact ⟨k, h2⟩
+      · exact ⟨(Spec.fastq inp).length, by rw [List.drop_length]; exact h2⟩
 
 theorem genM_mkM (inp : List UInt8) (cap : Nat) (hcap : 3 ≤ cap) (pol : Pol) (hwf : PolWf1 pol)
-    (script : List ReadEv) (hs : NoFail script) (chunk : Nat) :
-    GenM inp (mkM inp cap pol script chunk) := by
-  refine ⟨⟨0, good_mkReader' inp False cap hcap pol hwf (fun h => h.elim) script hs chunk⟩, ?_⟩
+    (script : List ReadEv) (chunk : Nat) (seekFails : List (Nat × IoKind)) :
+    GenM inp (mkM inp cap pol script chunk seekFails) := by
+  refine ⟨⟨0, good_mkReader'' inp False cap hcap pol hwf (fun h => h.elim) script
+    (fun h => h.elim) chunk seekFails (fun h => h.elim)⟩, ?_⟩
   intro j
   refine ⟨[], ?_, fun x hx => by cases hx⟩
   match j with
@@ -168,15 +203,32 @@ theorem run_genuine (inp : List UInt8) : ∀ (ops : List Op) (m : MSt), GenM inp
     · exact h2
     · exact ih _ h1 (fun o' ho' => hops o' (List.mem_cons_of_mem _ ho')) o ho
 
-/-- **(d)** Every record shown by any observation of any history (seeks included) is a record
-of `Spec.fastq inp` – for scripts without failing events and policies that answer more than
-the capacity passed or refuse. -/
+/-- **(d), C06.** Every record shown by any observation of any history (a record returned by
+`next`, an owned record, the records of a dumped record set; seeks included) is a record of
+`Spec.fastq inp` – for **every** read script (failing reads included), scripted seek failures,
+and policies that answer more than the capacity passed or refuse. -/
 theorem fastq_history_genuine (inp : List UInt8) (cap : Nat) (hcap : 3 ≤ cap) (pol : Pol)
-    (hpol : PolWf pol) (script : List ReadEv) (hs : NoFail script) (chunk : Nat)
+    (hpol : PolWf pol) (script : List ReadEv) (chunk : Nat) (seekFails : List (Nat × IoKind))
+    (ops : List Op) (hops : ∀ op ∈ ops, op.wf = true) :
+    ∀ o ∈ runM (mkM inp cap pol script chunk seekFails) ops, ∀ x ∈ recsOf o, x ∈ allRecs inp :=
+  run_genuine inp ops _ (genM_mkM inp cap hcap pol (PolWf.wf1 hpol) script chunk seekFails) hops
+
+/-- the special case without failing seeks (the earlier form of the statement) -/
+theorem fastq_history_genuine_noseekfail (inp : List UInt8) (cap : Nat) (hcap : 3 ≤ cap) (pol : Pol)
+    (hpol : PolWf pol) (script : List ReadEv) (chunk : Nat)
     (ops : List Op) (hops : ∀ op ∈ ops, op.wf = true) :
     ∀ o ∈ runM (mkM inp cap pol script chunk) ops, ∀ x ∈ recsOf o, x ∈ allRecs inp :=
-  run_genuine inp ops _ (genM_mkM inp cap hcap pol (PolWf.wf1 hpol) script hs chunk) hops
+  fastq_history_genuine inp cap hcap pol hpol script chunk [] ops hops
 
+/-- totality and genuineness together, as for FASTA -/
+theorem fastq_history_total_genuine (inp : List UInt8) (cap : Nat) (hcap : 3 ≤ cap) (pol : Pol)
+    (hpol : PolWf pol) (script : List ReadEv) (chunk : Nat) (seekFails : List (Nat × IoKind))
+    (ops : List Op) (hops : ∀ op ∈ ops, op.wf = true) :
+    ∀ o ∈ runM (mkM inp cap pol script chunk seekFails) ops,
+      o ≠ .panic ∧ o ≠ .fuel ∧ ∀ x ∈ recsOf o, x ∈ allRecs inp := by
+  intro o ho
+  have h1 := fastq_history_total inp cap (by omega) pol hpol script chunk seekFails ops o ho
+  exact ⟨h1.1, h1.2, fastq_history_genuine inp cap hcap pol hpol script chunk seekFails ops hops o ho⟩
 
 /-! ## failing read scripts: the histories that showed a fabricated record before the repair
 
